@@ -152,6 +152,9 @@ def explore(tree_name, tree_sql, first_ops, max_len, quick, rules):
 
 
 def worker(shard, nshards, units, quick, rules):
+    import logging
+
+    logging.disable(logging.CRITICAL)
     res = {"states": 0, "transitions": 0, "nontrivial": 0, "violations": [], "errors": 0, "samples": [],
            "eqpairs": 0, "stream_trees": 0, "stream_nodes": 0}
     for i, u in enumerate(units):
@@ -198,6 +201,8 @@ def stream_unit(u, res):
                 check_stream_tree(tree, f"parse+hash[{dialect or 'base'}]", sql, res)
             except RecursionError:
                 pass
+            except Exception as e:
+                add_stream_violation(res, "I3", f"parse[{dialect or 'base'}]", sql, f"hash / == / copy of the returned tree raises {type(e).__name__}: {str(e)[:60]}")
     elif kind == "rules":
         from sqlglot.optimizer import optimizer as opt
         from sqlglot.schema import ensure_schema
@@ -219,7 +224,8 @@ def stream_unit(u, res):
                     break
                 except Exception:
                     break  # C05-style crashes are not C08's business
-                check_stream_tree(tree, f"rule:{rule.__name__}", sql, res)
+                if check_stream_tree(tree, f"rule:{rule.__name__}", sql, res):
+                    break  # reported at the first rule that returns a damaged tree; later rules would only repeat it
                 hash(tree)
 
 
@@ -229,6 +235,7 @@ def check_stream_tree(tree, origin, sql, res):
     res["stream_nodes"] += len(fpm.nodes(tree))
     if probs:
         add_stream_violation(res, probs[0][:2], origin, sql, probs[0])
+    return bool(probs)
 
 
 def add_stream_violation(res, code, origin, sql, msg):
@@ -264,10 +271,20 @@ def run(ctx: Ctx) -> None:
         k1 = [x for c, x, t in statements(d, 1)]
         for i in range(0, len(k1), 150):
             units.append(("parse", d, k1[i:i + 150]))
+    # trees returned by parse_one for every statement of the repository's dialect tests, in its own dialect
+    by_d = {}
+    for d, sql in corpus.dialect_test_sql():
+        by_d.setdefault(d, []).append(sql)
+    for d, sqls in sorted(by_d.items()):
+        for i in range(0, len(sqls), 150):
+            units.append(("parse", d, sqls[i:i + 150]))
     cases = corpus.optimizer_cases()
     from vlib.grammar_exec import queries as exec_queries
     from vlib.grammar_exec import SCHEMA as EXEC_SCHEMA
     cases = cases + [(x, "duckdb", EXEC_SCHEMA) for c, x, t in exec_queries(2, opt_extras=True)][::(3 if quick else 1)]
+    # every optimizer rule on the dialect-test statements (no schema: a rule that refuses ends that statement's chain)
+    dcases = [(sql, d or None, {}) for d, sql in corpus.dialect_test_sql()]
+    cases = cases + dcases[::(3 if quick else 1)]
     for i in range(0, len(cases), 25):
         units.append(("rules", cases[i:i + 25]))
     res = ctx.run_shards(worker, ctx.jobs * 6, units, quick, rules)
